@@ -258,6 +258,16 @@ def analyse(mod, run, label, skip=()):
                     if bi_.op == "add" and bi_.ops[1]["k"] == "int" and int(bi_.ops[1]["v"]) == 1 and same(fn, bi_.ops[0], {"k": "inst", "v": p_.id}) and ot_[0]["v"]["k"] != "int": ct_ = (p_, ot_[0]["v"])
                 if sh_ is not None and ct_ is not None and (fn.dominates(ok_succ, h_) or h_ in fn.reachable(ok_succ)): partial = (sh_, ct_)
             autosized = [pt for pt in puts if pt.op == "call" and not any(pt.ops[k]["t"] == "i32" and not pt.ops[k]["t"].endswith("*") for k in range(pt["nargs"]))]
+            def only_constants(o, d=0):
+                """a start width chosen among constants (e.g. by a test of the sum's upper half) can be a correct short cut: not judged here"""
+                o = strip(fn, o)
+                if o["k"] == "int": return True
+                if o["k"] != "inst" or d > 6: return False
+                x = fn.imap[o["v"]]
+                if x.op == "phi": return all(only_constants(c_["v"], d + 1) for c_ in x["incoming"])
+                if x.op == "select": return only_constants(x.ops[1], d + 1) and only_constants(x.ops[2], d + 1)
+                return False
+            if partial is not None and only_constants(partial[1][1]): partial = None
             if partial is not None and autosized:
                 run.fail(Finding("R1-width-not-measured-from-sum", fn.name, "width-computation", "value",
                                  "the width reported for the sum is counted up from a starting width (the loop at %s only looks at the bytes above it) while %s at %s sizes the stored bytes from the value itself: when the sum is narrower than the start the stored bytes are shorter than the reported width and the stale high bytes are read back" % (
